@@ -85,7 +85,6 @@ class Case:
         S = setup()
         self.vt, self.clk, self.stm = S['vt'], S['clk'], S['stm']
         vt = self.vt
-        self.reset_world()
         self.base = float(int(vt.now) + 16)
         vt.advance_to(self.base)
         self.clocks = {'s': self.clk.SystemClock, 'a': self.clk.AppClock}
@@ -99,24 +98,42 @@ class Case:
 
     # ---- world reset between cases -------------------------------------------------------
     def reset_world(self):
+        """Bring the world back to idle clocks.  Returns the list of failures of the REAL code met on
+        the way ('EXC:<Name> in <call>', 'DEAD:<thread>'): clear/stop must cancel and never raise, the
+        singleton clock threads must be alive.  A non-empty list means the world is spoilt: the
+        remaining cases have to run in a fresh process."""
         vt, clk = self.vt, self.clk
+        bad = []
+
+        def attempt(what, f):
+            try:
+                f()
+            except Exception as e:
+                bad.append(f'EXC:{type(e).__name__} in {what}')
         vt.preempt = None
-        vt.settle()
+        attempt('settle', vt.settle)
         for c in list(clk.TempoClock.all):
             if c._thread is not None and c._thread.is_alive():
-                c._stop()
-        clk.SystemClock.clear()
-        clk.AppClock.clear()
-        vt.settle()
+                attempt('TempoClock._stop', c._stop)
+        attempt('SystemClock.clear', clk.SystemClock.clear)
+        attempt('AppClock.clear', clk.AppClock.clear)
+        attempt('settle', vt.settle)
         a = vt.thread('AppClock')
         if a.state == 'wait':
-            vt.wake(a, 'spurious')
-        vt.settle()
+            attempt('AppClock wake', lambda: vt.wake(a, 'spurious'))
+        attempt('settle', vt.settle)
         if hasattr(clk.AppClock, '_tick_pending'):
             clk.AppClock._tick_pending = False
-        S = _S
-        S['main']._in_awake_call = False
+        _S['main']._in_awake_call = False
+        for name in ('SystemClock', 'AppClock'):
+            r = vt.thread(name)
+            if r.state != 'wait':
+                bad.append(f'DEAD:{name}' if r.state == 'done' else f'STUCK:{name}:{r.state}')
+        for e in vt.log:
+            if e[0] == 'died':
+                bad.append(f'DEAD:{e[1]}:{e[2]}')
         vt.clear_log()
+        return bad
 
     def _preempt(self, thread, event, lock):
         if self.arm and event == 'release' and lock == 'main_lock' and thread == self.arm:
@@ -390,21 +407,45 @@ class Case:
             return f'HARNESS-EXC:{type(e).__name__}:{e}:{traceback.format_exc()[-300:]}'
 
     def finish(self):
-        for r in self.halves:
-            while not r.done:
-                self.vt.step(r)
+        """let unfinished helper threads end, then tear the case down; -> failures of the real code"""
+        bad = []
+        try:
+            for r in self.halves:
+                while not r.done:
+                    if not self.vt.step(r):
+                        bad.append('STUCK:half-sched')
+                        break
+        except Exception as e:
+            bad.append(f'EXC:{type(e).__name__} in AppClock.sched')
         self.halves = []
+        self.mark = len(self.vt.log)
+        return bad + self.reset_world()
 
 
 def run_case(lines):
+    """-> (one output per line, world still usable?)"""
     c = Case()
     out = [c.line(l) + ' @' + fr(Fr(c.vt.now) - Fr(c.base)) for l in lines]
-    c.finish()
-    return out
+    at = ' @' + fr(Fr(c.vt.now) - Fr(c.base))
+    bad = c.finish()
+    if bad and out:
+        # failures of the real code during teardown belong to this case: shown on its last line
+        body, _, _ = out[-1].rpartition(' @')
+        out[-1] = ('' if body == '-' else body + ';') + ';'.join('T:' + b.replace(';', ',').replace(' ', '_') for b in bad) + at
+    return out, not bad
 
 
 def run(payload):
-    return [run_case(c) for c in payload['cases']]
+    """Runs cases until the world is spoilt by a failure of the real code (dead clock thread,
+    clear/stop raising, ...); the caller runs the remaining cases in a fresh process."""
+    setup()
+    outs = []
+    for lines in payload['cases']:
+        out, ok = run_case(lines)
+        outs.append(out)
+        if not ok:
+            break
+    return {'outs': outs}
 
 
 # ---- real threads, real sleeps (thorough tier soak; no virtual time) ---------------------------
